@@ -538,7 +538,7 @@ def run(ctx):
         ctx.note(case, info["nontrivial"], info["classes"])
         ctx.handle(case, fails)
 
-    core.run_given(ctx, history(30 if ctx.quick else 60), body, ctx.n(2600, 14000), label="c05-histories")
+    core.run_given(ctx, history(30 if ctx.quick else 60), body, ctx.n(2600, 12000), label="c05-histories")
     need = ["clock:" + r for r in CLOCK_RELS] + ["version:2.0", "version:2.1", "form:object", "form:dict", "op:revoke", "op:poke", "op:roundtrip",
                                                   "op:set_modified", "op:unmodifiable", "op:custom", "op:mark:gadd", "on-revoked:new_version"]
     total = sum(v for k, v in ctx.classes.items() if k.startswith("clock:"))
